@@ -224,9 +224,18 @@ def set_cookie_header(sc: dict) -> str:
         parts.append(f"Expires={BAD_DATES[sc['bad_date'] % len(BAD_DATES)]}")
     elif sc.get("expires") is not None:
         parts.append(f"Expires={http_date(sc['expires'], sc.get('date_fmt', 0))}")
+    if sc.get("junk") is not None:
+        # attributes this client does not know, or text that is no attribute at all, ahead of the ones that matter
+        # (RFC 6265 5.2: unrecognised attributes are ignored; what follows them still counts)
+        parts.append(JUNK_ATTRS[sc["junk"] % len(JUNK_ATTRS)])
     if sc.get("secure"):
         parts.append("Secure")
+    if sc.get("junk") is not None and sc["junk"] >= len(JUNK_ATTRS):
+        parts.append("HttpOnly")
     return "; ".join(parts)
+
+
+JUNK_ATTRS = ["Priority", "SameParty", "Comment=hello world", "Partitioned x"]
 
 
 def feed_header(jar, header: str, url) -> None:
@@ -425,6 +434,7 @@ def set_cookie_st(trailing_slash: bool):
             "domain": st.sampled_from(DOMAINS),
             "path": st.sampled_from(paths),
             "secure": st.booleans(),
+            "junk": st.sampled_from([None, None, None] + list(range(12))),
             "max_age": st.sampled_from(["0", "5", "50", "-1", "abc", "9" * 400, "-" + "9" * 400]),
             "expires_in": st.sampled_from([-10, 5, 50]),
             "expires_abs": st.sampled_from([None, None, None, None, None, None, 0, 1]),
